@@ -215,6 +215,7 @@ func cmdVerify(args []string) {
 				}
 			}
 		}
+		shown := map[string]bool{}
 		for i, o := range r.Obls {
 			status := "ok"
 			if o.Cover {
@@ -224,6 +225,13 @@ func cmdVerify(args []string) {
 			} else if o.Result != "unsat" {
 				status = "FAIL(" + o.Result + ")"
 				bad++
+			}
+			base := strings.SplitN(o.Name, "#", 2)[0]
+			if status != "ok" && !o.Cover && !*verbose {
+				if shown[base] {
+					continue
+				}
+				shown[base] = true
 			}
 			if *verbose || (status != "ok" && !o.Cover) {
 				fmt.Printf("   [%s] %s %s %dms  {%s}\n", status, o.Name, o.Solver, o.Ms, o.Src)
